@@ -267,7 +267,7 @@ func (c *Ctx) rulesC06(a *coreAnchors, la *LockAnalysis) {
 			args := s.Common().Args
 			c.check(len(args) == 3 && loadOfField(args[1]) == fCA && loadOfField(args[2]) == fCD, "C06.proc", "ProcessWhen receives (activated, deactivated)"+nth(i), s.Pos(), "arguments must be the transition's activated and deactivated sets in that order")
 		}
-		for i, s := range c.sitesIn(a.emitEvents, pm+":Subscriptions.ProcessStateCtx") {
+		for i, s := range c.innerSites(a.emitEvents, pm+":Subscriptions.ProcessStateCtx") {
 			args := s.Common().Args
 			c.check(len(args) == 3 && loadOfField(args[1]) == fCA && loadOfField(args[2]) == fCD, "C06.proc", "ProcessStateCtx receives (activated, deactivated)"+nth(i), s.Pos(), "arguments must be the transition's activated and deactivated sets in that order")
 		}
@@ -279,7 +279,11 @@ func (c *Ctx) rulesC06(a *coreAnchors, la *LockAnalysis) {
 			name       string
 		}{{fCA, fEnters, "cacheActivated"}, {fCD, fExits, "cacheDeactivated"}} {
 			nNonAuto := 0
-			for i, w := range writesOfFieldIn(a.emitEvents, pair.cache) {
+			var cacheWrites []fieldWrite
+			for _, hf := range c.hostedFns(a.emitEvents) {
+				cacheWrites = append(cacheWrites, writesOfFieldIn(hf, pair.cache)...)
+			}
+			for i, w := range cacheWrites {
 				auto := false
 				for _, g := range guardsOf(w.Instr.Block()) {
 					if gCallTruth("", "Transition", "IsAuto", true).Match(g) {
